@@ -372,6 +372,16 @@ func (fr *Frame) blockingCheck(st *State, in ssa.Instruction, what string) {
 	for _, m := range c.acquired {
 		free := And(Not(h.loadGhost(m.id, gw).X), Eq(h.loadGhost(m.id, gr).X, Num(0)))
 		name := fmt.Sprintf("lock:blocking:%s@%s#%d", m.name, what, c.guardSeq(in, "blocking"+what))
-		c.oblige(fr, st, "lock", name, free, []string{"C12"}, "blocking channel "+what+" while "+m.name+" may be held: "+in.String(), false)
+		// the obligation serves every property the function is under contract for (a stalled mutex stalls
+		// whatever the function is part of: C16's Remove behind Receive's read lock), and C12 in any case
+		tags := []string{"C12"}
+		if fr.contract != nil {
+			for _, t := range fr.contract.Tags {
+				if t != "C12" {
+					tags = append(tags, t)
+				}
+			}
+		}
+		c.oblige(fr, st, "lock", name, free, tags, "blocking channel "+what+" while "+m.name+" may be held: "+in.String(), false)
 	}
 }
